@@ -503,7 +503,7 @@ fn one_symbol<const CELLS: usize, const PROPS: usize, const UPDATE: bool>() {
     forget(d);
 }
 
-//@ harness props=C01,C07,C08 tier=quick for=C07:thorough,C08:thorough unwind=10 unwindset=RangeDecoder.*E3getB:28,decode_distance:28 mem_gb=10 timeout=1500 native=no opt_covers=dry_longest
+//@ harness props=C01,C07,C08,C02 tier=quick for=C07:thorough,C08:thorough unwind=10 unwindset=RangeDecoder.*E3getB:28,decode_distance:28 mem_gb=10 timeout=1500 native=no opt_covers=dry_longest
 //@ bound: ONE symbol of process_next_inner(update=true) from every valid state (state<12, reps 32-bit, any window length/dict/history, any coder code), any 50 decision bits, symbolic (lc,lp,pb) with lc+lp<=4 (12288-cell table); decode_bit/get_bit replaced by the bit oracle
 #[cfg_attr(kani, kani::proof)]
 #[cfg_attr(kani, kani::stub(std::fmt::format, crate::verif_common::stub_format))]
@@ -559,6 +559,9 @@ pub const K_WIDE: usize = 3;
 pub fn script(len: usize, kind: usize) -> usize {
     len | (kind << 8)
 }
+pub static DRY_SEEN: std::sync::atomic::AtomicUsize = std::sync::atomic::AtomicUsize::new(0);
+pub static DRY_RANGE: std::sync::atomic::AtomicUsize = std::sync::atomic::AtomicUsize::new(0);
+pub static DRY_CODE: std::sync::atomic::AtomicUsize = std::sync::atomic::AtomicUsize::new(0);
 pub fn abs_fold(range: u32, code: u32, first: u8, last: u8) -> (u32, u32) {
     (
         range.rotate_left(3) ^ (first as u32) ^ 0x9E37_0000,
@@ -580,6 +583,12 @@ where
     let sc = d.rep[d.state & 3];
     let l = sc & 0xFF;
     let kind = sc >> 8;
+    if !update {
+        // remember with which coder state the last dry run was made
+        DRY_RANGE.store(rc.range as usize, std::sync::atomic::Ordering::Relaxed);
+        DRY_CODE.store(rc.code as usize, std::sync::atomic::Ordering::Relaxed);
+        DRY_SEEN.store(1, std::sync::atomic::Ordering::Relaxed);
+    }
     let (first, last) = {
         let buf = match rc.stream.fill_buf() {
             Ok(b) => b,
@@ -716,6 +725,7 @@ fn partial_step<const P: usize, const R: usize, const L1: usize, const L2: usize
         }
         j += 1;
     }
+    DRY_SEEN.store(0, std::sync::atomic::Ordering::Relaxed);
     let mut d = light_state::<0>(LzmaProperties { lc: 0, lp: 0, pb: 0 }, None);
     d.state = 0;
     d.rep = [script(L1, K_LIT), script(L2, K_LIT), script(L3, K_LIT), script(20, K_LIT)];
@@ -757,6 +767,15 @@ fn partial_step<const P: usize, const R: usize, const L1: usize, const L2: usize
     let carry = d.partial_input_buf.position() as usize;
     vassert!(carry == total - used, "partial: the carry is exactly the uncommitted suffix");
     vassert!(carry < MAX_REQUIRED_INPUT, "partial: fewer than 20 bytes stay uncommitted");
+    if carry > 0 {
+        // the call ended on a failed dry run of the first uncommitted symbol: it must have been
+        // made with the coder state as it stands after the committed symbols
+        vassert!(DRY_SEEN.load(std::sync::atomic::Ordering::Relaxed) == 1, "partial: an incomplete tail is detected by a dry run");
+        vassert!(
+            DRY_RANGE.load(std::sync::atomic::Ordering::Relaxed) == er as usize && DRY_CODE.load(std::sync::atomic::Ordering::Relaxed) == ec as usize,
+            "partial: the dry run is made with the current (range, code)"
+        );
+    }
     let x = (t.u8() as usize) % 20;
     if x < carry {
         vassert!(d.partial_input_buf.get_ref()[x] == q[used + x], "partial: carry bytes are the uncommitted bytes, in order");
@@ -1070,7 +1089,7 @@ fn header_any<const OPT: usize, const AVAIL: usize>() {
     forget(r);
 }
 
-//@ harness props=C01,C08,C07 tier=quick unwind=16 unwindset=default_read_exact:4 mem_gb=3 timeout=300
+//@ harness props=C01,C08,C07,C09,C10,C16 tier=quick unwind=16 unwindset=default_read_exact:4 mem_gb=3 timeout=300
 //@ bound: read_header(ReadFromHeader) on 14 symbolic bytes, all available
 #[cfg_attr(kani, kani::proof)]
 #[cfg_attr(kani, kani::stub(std::fmt::format, crate::verif_common::stub_format))]
@@ -1079,7 +1098,7 @@ pub fn header_from_header_full() {
     header_any::<0, 14>()
 }
 
-//@ harness props=C08,C07 tier=quick unwind=16 unwindset=default_read_exact:4 mem_gb=3 timeout=300
+//@ harness props=C08,C07,C09 tier=quick unwind=16 unwindset=default_read_exact:4 mem_gb=3 timeout=300
 //@ bound: read_header(ReadHeaderButUseProvided(any)) on 14 symbolic bytes
 #[cfg_attr(kani, kani::proof)]
 #[cfg_attr(kani, kani::stub(std::fmt::format, crate::verif_common::stub_format))]
@@ -1088,7 +1107,7 @@ pub fn header_use_provided_13() {
     header_any::<1, 14>()
 }
 
-//@ harness props=C08,C07 tier=quick unwind=16 unwindset=default_read_exact:4 mem_gb=3 timeout=300
+//@ harness props=C08,C07,C09 tier=quick unwind=16 unwindset=default_read_exact:4 mem_gb=3 timeout=300
 //@ bound: read_header(UseProvided(any)) on 14 symbolic bytes (5-byte header)
 #[cfg_attr(kani, kani::proof)]
 #[cfg_attr(kani, kani::stub(std::fmt::format, crate::verif_common::stub_format))]
@@ -1113,6 +1132,52 @@ pub fn header_truncated_12() {
 #[cfg_attr(kani, kani::stub(std::io::Error::is_interrupted, crate::verif_common::stub_not_interrupted))]
 pub fn header_truncated_3() {
     header_any::<2, 3>()
+}
+
+
+//@ harness props=C08,C07,C05,C13 tier=quick unwind=16 unwindset=default_read_exact:4 mem_gb=3 timeout=300 opt_covers=max_props,small_dict_clamped
+//@ bound: read_header(ReadHeaderButUseProvided(any)) with only 7 of 13 bytes available (cut inside the size field): reported as HeaderTooShort (what the streaming decoder waits on)
+#[cfg_attr(kani, kani::proof)]
+#[cfg_attr(kani, kani::stub(std::fmt::format, crate::verif_common::stub_format))]
+#[cfg_attr(kani, kani::stub(std::io::Error::is_interrupted, crate::verif_common::stub_not_interrupted))]
+pub fn header_truncated_use_provided_7() {
+    header_any::<1, 7>()
+}
+
+//@ harness props=C08,C07,C05,C13 tier=quick unwind=16 unwindset=default_read_exact:4 mem_gb=3 timeout=300 opt_covers=max_props,small_dict_clamped
+//@ bound: read_header(ReadHeaderButUseProvided(any)) with only 12 of 13 bytes available: reported as HeaderTooShort (what the streaming decoder waits on)
+#[cfg_attr(kani, kani::proof)]
+#[cfg_attr(kani, kani::stub(std::fmt::format, crate::verif_common::stub_format))]
+#[cfg_attr(kani, kani::stub(std::io::Error::is_interrupted, crate::verif_common::stub_not_interrupted))]
+pub fn header_truncated_use_provided_12() {
+    header_any::<1, 12>()
+}
+
+//@ harness props=C08,C07,C05,C13 tier=quick unwind=16 unwindset=default_read_exact:4 mem_gb=3 timeout=300 opt_covers=max_props,small_dict_clamped
+//@ bound: read_header(ReadHeaderButUseProvided(any)) with only 3 of 13 bytes available (cut inside the dictionary size): reported as HeaderTooShort (what the streaming decoder waits on)
+#[cfg_attr(kani, kani::proof)]
+#[cfg_attr(kani, kani::stub(std::fmt::format, crate::verif_common::stub_format))]
+#[cfg_attr(kani, kani::stub(std::io::Error::is_interrupted, crate::verif_common::stub_not_interrupted))]
+pub fn header_truncated_use_provided_3() {
+    header_any::<1, 3>()
+}
+
+//@ harness props=C08,C07,C05,C13 tier=quick unwind=16 unwindset=default_read_exact:4 mem_gb=3 timeout=300 opt_covers=max_props,small_dict_clamped
+//@ bound: read_header(ReadFromHeader) with only 6 of 13 bytes available: reported as HeaderTooShort (what the streaming decoder waits on)
+#[cfg_attr(kani, kani::proof)]
+#[cfg_attr(kani, kani::stub(std::fmt::format, crate::verif_common::stub_format))]
+#[cfg_attr(kani, kani::stub(std::io::Error::is_interrupted, crate::verif_common::stub_not_interrupted))]
+pub fn header_truncated_6() {
+    header_any::<0, 6>()
+}
+
+//@ harness props=C08,C07,C05,C13 tier=quick unwind=16 unwindset=default_read_exact:4 mem_gb=3 timeout=300 opt_covers=max_props,small_dict_clamped
+//@ bound: read_header(ReadFromHeader) with only 2 of 13 bytes available: reported as HeaderTooShort (what the streaming decoder waits on)
+#[cfg_attr(kani, kani::proof)]
+#[cfg_attr(kani, kani::stub(std::fmt::format, crate::verif_common::stub_format))]
+#[cfg_attr(kani, kani::stub(std::io::Error::is_interrupted, crate::verif_common::stub_not_interrupted))]
+pub fn header_truncated_2() {
+    header_any::<0, 2>()
 }
 
 
@@ -1523,6 +1588,72 @@ pub fn reset_state_realloc_1_0() {
 #[cfg_attr(kani, kani::stub(crate::util::vec2d::Vec2D::fill, crate::util::vec2d::verif_h::fill_observer))]
 pub fn reset_state_fill_1_1() {
     reset_equiv::<1, 1, 1, 0, 1536, true>()
+}
+
+
+/// Fill branch of reset_state on a SMALL stand-in table (rows = 1 << (lc+lp), 3 columns instead
+/// of 0x300): `Vec2D::fill` runs for real (no observer), every cell is inspected at a quantified
+/// index. The branch does not depend on the column count, so this decides "the kept table is
+/// refilled completely, whatever lc/lp split" without the 768-iteration loops.
+fn reset_fill_small<const OLD_LC: u32, const OLD_LP: u32, const LC: u32, const LP: u32, const CELLS: usize>() {
+    let mut t = Tape::<16>::new();
+    let pb = (t.u8() as u32) % 5;
+    let j = (t.u8() as usize) % CELLS;
+    let old = LzmaProperties { lc: OLD_LC, lp: OLD_LP, pb: (t.u8() as u32) % 5 };
+    let mut d = light_state::<0>(old, None);
+    d.literal_probs = mk_vec2d(Box::new([0x0123u16; CELLS]) as Box<[u16]>, 3);
+    d.reset_state(LzmaProperties { lc: LC, lp: LP, pb });
+    vassert!(vec2d_len(&d.literal_probs) == CELLS && vec2d_cols(&d.literal_probs) == 3, "reset(fill branch): the table is kept when lc+lp is unchanged");
+    vassert!(vec2d_cell(&d.literal_probs, j) == 0x400, "reset(fill branch): every cell of the kept literal table is 0x400 again, whatever the lc/lp split");
+    vassert!(d.lzma_props.lc == LC && d.lzma_props.lp == LP && d.lzma_props.pb == pb, "reset/new: properties installed");
+    vcover!(j == CELLS - 1, "last_cell_inspected");
+    forget(d);
+}
+
+//@ harness props=C14,C02 tier=quick unwind=16 mem_gb=3 timeout=300
+//@ bound: reset_state fill branch, old (lc=1, lp=0) -> new (lc=0, lp=1), stand-in table of 2 rows x 3 columns, real Vec2D::fill, any cell
+#[cfg_attr(kani, kani::proof)]
+#[cfg_attr(kani, kani::stub(std::fmt::format, crate::verif_common::stub_format))]
+pub fn reset_state_fill_small_lc0_lp1() {
+    reset_fill_small::<1, 0, 0, 1, 6>()
+}
+
+//@ harness props=C14,C02 tier=quick unwind=16 mem_gb=3 timeout=300
+//@ bound: reset_state fill branch, old (lc=0, lp=2) -> new (lc=1, lp=1), stand-in table of 4 rows x 3 columns, real Vec2D::fill, any cell
+#[cfg_attr(kani, kani::proof)]
+#[cfg_attr(kani, kani::stub(std::fmt::format, crate::verif_common::stub_format))]
+pub fn reset_state_fill_small_lc1_lp1() {
+    reset_fill_small::<0, 2, 1, 1, 12>()
+}
+
+//@ harness props=C14,C02 tier=quick unwind=28 mem_gb=3 timeout=300
+//@ bound: reset_state fill branch, old (lc=2, lp=1) -> new (lc=0, lp=3), stand-in table of 8 rows x 3 columns, real Vec2D::fill, any cell
+#[cfg_attr(kani, kani::proof)]
+#[cfg_attr(kani, kani::stub(std::fmt::format, crate::verif_common::stub_format))]
+pub fn reset_state_fill_small_lc0_lp3() {
+    reset_fill_small::<2, 1, 0, 3, 24>()
+}
+
+
+//@ harness props=C14,C08 tier=quick unwind=8 mem_gb=3 timeout=300
+//@ bound: LzmaParams::new on any (lc<=8, lp<=4, pb<=4, dict_size, size option incl. Some(u64::MAX)): the parameters a raw decoder is built from are the ones given, verbatim - the same values reset(Some(size)) installs
+#[cfg_attr(kani, kani::proof)]
+#[cfg_attr(kani, kani::stub(std::fmt::format, crate::verif_common::stub_format))]
+pub fn raw_lzma_params_new_verbatim() {
+    let mut t = Tape::<32>::new();
+    let lc = (t.u8() % 9) as u32;
+    let lp = (t.u8() % 5) as u32;
+    let pb = (t.u8() % 5) as u32;
+    let dict = t.u32();
+    let some = t.bool();
+    let n = t.u64();
+    let size = if some { Some(n) } else { None };
+    let p = LzmaParams::new(LzmaProperties { lc, lp, pb }, dict, size);
+    vassert!(p.unpacked_size == size, "raw decoder: LzmaParams::new keeps the expected size verbatim (no sentinel: Some(u64::MAX) is a size, as it is for reset)");
+    vassert!(p.dict_size == dict, "raw decoder: LzmaParams::new keeps the dictionary size verbatim");
+    vassert!(p.properties.lc == lc && p.properties.lp == lp && p.properties.pb == pb, "raw decoder: LzmaParams::new keeps the properties verbatim");
+    vcover!(some && n == u64::MAX, "size_all_ones");
+    forget(p);
 }
 
 /// C16(c): once the declared size is reached, a further process_stream call (what Stream::write
@@ -3252,7 +3383,7 @@ pub fn partial_p19_r8_l19_2_20() {
 }
 
 
-//@ harness props=C01,C08 tier=quick unwind=10 unwindset=RangeDecoder.*E3getB:28,decode_distance:28 mem_gb=10 timeout=1500 native=no opt_covers=dry_longest,literal_lc1_lp3,longest_match_pb4
+//@ harness props=C01,C08,C09 tier=quick unwind=10 unwindset=RangeDecoder.*E3getB:28,decode_distance:28 mem_gb=10 timeout=1500 native=no opt_covers=dry_longest,literal_lc1_lp3,longest_match_pb4
 //@ bound: ONE symbol of process_next_inner(update=true), concrete lc=0 lp=0 pb=0 (768 cells), every valid state, any decision bits, symbolic size in effect
 #[cfg_attr(kani, kani::proof)]
 #[cfg_attr(kani, kani::stub(std::fmt::format, crate::verif_common::stub_format))]
